@@ -52,7 +52,7 @@ def run_shard_inprocess(prop, tier, seed, shard, partial_path=None):
     mod = load_prop(prop)
     ctx = core.Ctx(prop, tier, seed, shard)
     ctx.partial_path = partial_path
-    s = int(hashlib.sha1(f'{seed}/{shard.get("name")}'.encode()).hexdigest()[:8], 16)
+    s = int(hashlib.sha1((f'{seed}/{shard.get("name")}' + (f'#r{shard["replica"]}' if shard.get('replica') else '')).encode()).hexdigest()[:8], 16)
     random.seed(s)
     np.random.seed(s % (2**32))
     try:
@@ -118,10 +118,24 @@ def load_known():
         return json.load(f).get('findings', [])
 
 
+def get_shards(mod, tier, seed):
+    """the module's shards; in the thorough tier every shard whose workload is random (not marked 'no_replica') is run
+    THOROUGH_REPEAT times (module attribute, env VERIF_THOROUGH_REPEAT overrides) with independent random streams: replica r>0 has
+    the same shard description plus 'replica': r, from which Ctx and the global generators derive their seeds."""
+    shards = mod.shards(tier, seed)
+    if tier != 'thorough':
+        return shards
+    rep = int(os.environ.get('VERIF_THOROUGH_REPEAT', getattr(mod, 'THOROUGH_REPEAT', 1)))
+    out = list(shards)
+    for r in range(1, max(1, rep)):
+        out += [dict(s, replica=r) for s in shards if not s.get('no_replica') and s.get('name') != 'repo-tests']
+    return out
+
+
 def run_check(prop, tier, seed, only_shard=None, replay=None):
     t0 = time.time()
     mod = load_prop(prop)
-    shards = mod.shards(tier, seed)
+    shards = get_shards(mod, tier, seed)
     if only_shard is not None:
         shards = [s for s in shards if s['name'] == only_shard]
     default_timeout = 1500 if tier == 'quick' else 7200
@@ -151,7 +165,7 @@ def finish(prop, tier, seed, mod, results, wall, replay=None):
     extra = {}
     shard_walls = {}
     for r in results:
-        name = r['shard'].get('name')
+        name = r['shard'].get('name') + (f"#r{r['shard']['replica']}" if r['shard'].get('replica') else '')
         shard_walls[name] = round(r.get('wall_s', 0), 1)
         if 'broken' in r:
             broken.append(f"shard {name}: {r['broken']} {r.get('stderr', '')[-800:]}")
@@ -320,7 +334,7 @@ def main(argv=None):
         mod = load_prop(prop)
         os.environ.update(shard_env())
         t0 = time.time()
-        shards = [s for s in mod.shards(a.tier, a.seed) if a.shard in (None, s['name'])]
+        shards = [s for s in get_shards(mod, a.tier, a.seed) if a.shard in (None, s['name'])]
         results = [run_shard_inprocess(prop, a.tier, a.seed, s) for s in shards]
         return finish(prop, a.tier, a.seed, mod, results, time.time() - t0)
     return run_check(prop, a.tier, a.seed, only_shard=a.shard)
